@@ -157,6 +157,95 @@ fn check_triple<G: GraphLike>(
     total
 }
 
+/// Several procedures one after the other on the SAME graph object (2-4 of them, a clone taken
+/// in between now and then): whatever one procedure leaves behind - holes and recycled ids in
+/// the vector backend, phases in non-canonical form, gadgets half-fused - is the next one's
+/// input. After every step E(g) must still be E(diagram). Only the first failing step of a
+/// sequence is reported, under the procedure that failed and its predecessor.
+fn check_sequence<G: GraphLike>(family: &'static str, index: u64, backend: &str, seq: &[&'static str], mut g: G, vs_all: bool, before: &Tens, desc: &serde_json::Value) -> u64 {
+    let c = ctx();
+    let mut total = 0u64;
+    let mut prev = "start";
+    for (k, proc_) in seq.iter().enumerate() {
+        let vs: Vec<V> = if vs_all { g.vertices().collect() } else { g.vertices().filter(|v| v % 2 == 0).collect() };
+        let budget = budget_for(g.num_vertices(), g.num_edges());
+        quizx::verif::take_ticks();
+        quizx::verif::set_budget(budget);
+        let r = guarded(|| apply_proc(proc_, &mut g, &vs));
+        quizx::verif::set_budget(u64::MAX);
+        let ticks = quizx::verif::take_ticks();
+        total += ticks.iter().map(|t| t.1).sum::<u64>();
+        c.count(&format!("sequence-step:{proc_}"), 1);
+        let detail = |what: &str, extra: serde_json::Value| json!({"what": what, "sequence": seq, "failed_at_step": k, "backend": backend, "diagram": desc, "extra": extra});
+        match r {
+            Err(Caught::Budget(rule)) => {
+                c.violation(&format!("{proc_}|no-termination-within-budget|{rule}|in-sequence-after:{prev}"), family, index, detail("rewrite budget exceeded", json!({"budget": budget})));
+                return total;
+            }
+            Err(Caught::Oracle(m)) => {
+                c.inconclusive("oracle-error", json!({"msg": m}));
+                return total;
+            }
+            Err(e @ Caught::Panic { .. }) => {
+                c.violation(&format!("{proc_}|panic|{}|in-sequence-after:{prev}", e.site()), family, index, detail("panic", json!(e.text())));
+                return total;
+            }
+            Ok(()) => {}
+        }
+        match snap(&g).map_err(EvalError::IllFormed).and_then(|s| eval_snap(&s)) {
+            Ok(after) => {
+                if after.len() != before.len() || !after.same(before, FLOAT_TOL) {
+                    c.violation(
+                        &format!("{proc_}|map-changed|in-sequence-after:{prev}"),
+                        family,
+                        index,
+                        detail("linear map changed", json!({"before": before.brief(), "after": after.brief(), "result": graph_json(&g)})),
+                    );
+                    return total;
+                }
+            }
+            Err(EvalError::IllFormed(m)) => {
+                c.violation(&format!("{proc_}|ill-formed-result|in-sequence-after:{prev}"), family, index, detail("result is not a well-formed diagram", json!({"why": m, "result": graph_json(&g)})));
+                return total;
+            }
+            Err(EvalError::TooWide(_)) => {
+                c.skipped();
+                return total;
+            }
+        }
+        if k % 2 == 1 {
+            // continue on a clone: a clone must be as good as the original
+            g = g.clone();
+        }
+        prev = proc_;
+    }
+    total
+}
+
+pub fn check_desc_sequences(family: &'static str, index: u64, r: &mut Rng, d: &DDesc) {
+    let c = ctx();
+    let (g0, _) = d.build::<quizx::vec_graph::Graph>(None);
+    let before = match eval_graph(&g0) {
+        Ok(t) => t,
+        Err(_) => {
+            c.skipped();
+            return;
+        }
+    };
+    let desc = d.to_json();
+    let mut total = 0;
+    for _ in 0..3 {
+        let len = 2 + r.below(3);
+        let seq: Vec<&'static str> = (0..len).map(|_| *r.pick(&PROCS)).collect();
+        let scr = if r.chance(0.5) { Some(r.next_u64()) } else { None };
+        let vs_all = r.chance(0.7);
+        total += check_sequence(family, index, "vec", &seq, d.build::<quizx::vec_graph::Graph>(scr).0, vs_all, &before, &desc);
+        total += check_sequence(family, index, "hash", &seq, d.build::<quizx::hash_graph::Graph>(scr).0, vs_all, &before, &desc);
+    }
+    c.case(family, if total > 0 && d.num_spiders() >= 2 { Some(d.hash()) } else { None });
+    c.evals(5);
+}
+
 fn pick_vs(r: &mut Rng, ids: &[V], g: &impl GraphLike) -> Vec<V> {
     match r.below(3) {
         0 => ids.to_vec(),
@@ -329,6 +418,21 @@ pub fn run() {
         let gl = r.chance(0.4);
         let d = gen_long_sparse(r, 40, 120, pool, gl, 0.0);
         check_desc("long-sparse", i, r, &d);
+    });
+    // procedures in sequence on the same graph object
+    par_cases("sequences", n_rand, move |r, i| {
+        let d = match r.below(4) {
+            0 => gen_random(r, &DiagParams { max_spiders: ms, max_bnd: 4, pool: PhasePool::Exact, graph_like: false, bare_wires: true, var_prob: 0.0 }),
+            1 => gen_random(r, &DiagParams { max_spiders: ms + 1, max_bnd: 4, pool: PhasePool::CliffordHeavy, graph_like: true, bare_wires: false, var_prob: 0.0 }),
+            2 => gen_gadget_rich(r, 5, PhasePool::Exact, 0.0),
+            _ => gen_gadget_pairs(r, PhasePool::CliffordHeavy, 0.0),
+        };
+        check_desc_sequences("sequences", i, r, &d);
+    });
+    par_cases("sequences-long-sparse", t.pick(100usize, 3_000usize), move |r, i| {
+        let gl = r.chance(0.4);
+        let d = gen_long_sparse(r, 40, 100, PhasePool::Exact, gl, 0.0);
+        check_desc_sequences("sequences-long-sparse", i, r, &d);
     });
     // hubs of degree 129-220
     par_cases("hub", t.pick(60usize, 2_000usize), move |r, i| {
